@@ -1,3 +1,1046 @@
+(* C09/Proofs.v -- theorems about the relational transaction model, for all statement sequences. *)
+From Coq Require Import Permutation Sorted.
 From NV.Common Require Import Base LockTable LockTableFacts.
 From NV.C09 Require Import Model.
 Open Scope N_scope.
+Arguments N.add : simpl never.
+Arguments N.sub : simpl never.
+Arguments N.eqb : simpl never.
+Arguments N.ltb : simpl never.
+Arguments N.leb : simpl never.
+
+(* ================================================================== 0. frame facts: which fields a step touches *)
+Lemma push_undo_get ts tx u tx' :
+  aget (push_undo ts tx u) tx' = match aget ts tx' with
+                                 | Some l => if N.eqb tx tx' then Some (l ++ [u]) else Some l
+                                 | None => None end.
+Proof.
+  unfold push_undo. destruct (aget ts tx) as [l|] eqn:G.
+  - rewrite aget_aset. destruct (N.eqb_spec tx tx') as [<-|]; [now rewrite G|destruct (aget ts tx'); reflexivity].
+  - destruct (N.eqb_spec tx tx') as [<-|]; [now rewrite G|destruct (aget ts tx'); reflexivity].
+Qed.
+
+Lemma push_undo_active ts tx u tx' : (aget (push_undo ts tx u) tx' = None) <-> (aget ts tx' = None).
+Proof. rewrite push_undo_get. destruct (aget ts tx'); [destruct (N.eqb tx tx')|]; split; congruence. Qed.
+
+(* upd_one / del_one keep locks, clock, ids, metas; they only push undo entries for tx *)
+Lemma upd_one_frame tx col v e ir :
+  ltab (upd_one tx col v e ir) = ltab e /\ enow (upd_one tx col v e ir) = enow e /\ nexttx (upd_one tx col v e ir) = nexttx e /\
+  ltmo (upd_one tx col v e ir) = ltmo e /\ hmeta (upd_one tx col v e ir) = hmeta e /\ bmeta (upd_one tx col v e ir) = bmeta e /\
+  (forall tx', aget (txs (upd_one tx col v e ir)) tx' = None <-> aget (txs e) tx' = None).
+Proof. destruct ir as [rid r]. unfold upd_one. cbn. repeat split; try reflexivity; apply push_undo_active. Qed.
+
+Lemma del_one_frame tx e ir :
+  ltab (del_one tx e ir) = ltab e /\ enow (del_one tx e ir) = enow e /\ nexttx (del_one tx e ir) = nexttx e /\
+  ltmo (del_one tx e ir) = ltmo e /\ hmeta (del_one tx e ir) = hmeta e /\ bmeta (del_one tx e ir) = bmeta e /\
+  (forall tx', aget (txs (del_one tx e ir)) tx' = None <-> aget (txs e) tx' = None).
+Proof. destruct ir as [rid r]. unfold del_one. cbn. repeat split; try reflexivity; apply push_undo_active. Qed.
+
+Definition Frame (e e' : eng) : Prop :=
+  ltab e' = ltab e /\ enow e' = enow e /\ nexttx e' = nexttx e /\ ltmo e' = ltmo e /\ hmeta e' = hmeta e /\ bmeta e' = bmeta e /\
+  (forall tx', aget (txs e') tx' = None <-> aget (txs e) tx' = None).
+Lemma Frame_refl e : Frame e e. Proof. repeat split; auto. Qed.
+Lemma Frame_trans a b c : Frame a b -> Frame b c -> Frame a c.
+Proof.
+  intros [A1 [A2 [A3 [A4 [A5 [A6 A7]]]]]] [B1 [B2 [B3 [B4 [B5 [B6 B7]]]]]].
+  repeat split; try congruence; intros; [apply A7, B7|apply B7, A7]; assumption.
+Qed.
+
+Lemma fold_frame (f : eng -> N * row -> eng) ms :
+  (forall e ir, Frame e (f e ir)) -> forall e, Frame e (fold_left f ms e).
+Proof.
+  intros Hf. induction ms as [|ir r IH]; intros e; cbn; [apply Frame_refl|].
+  eapply Frame_trans; [apply Hf|apply IH].
+Qed.
+
+(* rows other than the ones a fold touches are unchanged *)
+Lemma nth_error_set_nth_other {A} (l : list A) i j x : i <> j -> nth_error (set_nth l i x) j = nth_error l j.
+Proof.
+  revert i j. induction l as [|a r IH]; intros i j Hne; [destruct i; reflexivity|].
+  destruct i, j; cbn; try reflexivity; try congruence. apply IH. congruence.
+Qed.
+Lemma nth_error_set_nth_same {A} (l : list A) i x y : nth_error l i = Some y -> nth_error (set_nth l i x) i = Some x.
+Proof. revert i. induction l as [|a r IH]; intros i H; destruct i; cbn in *; try discriminate; auto. Qed.
+Lemma set_nth_length {A} (l : list A) i x : length (set_nth l i x) = length l.
+Proof. revert i. induction l as [|a r IH]; intros i; destruct i; cbn; auto. Qed.
+
+Lemma nth_row_set_other rs rid rid' r : rid <> rid' -> rid <> 0 -> nth_row (set_row rs rid r) rid' = nth_row rs rid'.
+Proof.
+  intros Hne H0. unfold nth_row, set_row. destruct (N.eqb_spec rid' 0); [reflexivity|].
+  apply nth_error_set_nth_other. lia.
+Qed.
+
+Lemma upd_one_rows tx col v e rid r rid' : rid <> rid' -> rid <> 0 -> nth_row (rows (upd_one tx col v e (rid, r))) rid' = nth_row (rows e) rid'.
+Proof.
+  intros Hne H0. unfold upd_one. cbn [rows]. destruct (nth_row (rows e) rid) as [cur|]; [|reflexivity].
+  destruct (alive cur); [now apply nth_row_set_other|reflexivity].
+Qed.
+Lemma del_one_rows tx e rid r rid' : rid <> rid' -> rid <> 0 -> nth_row (rows (del_one tx e (rid, r))) rid' = nth_row (rows e) rid'.
+Proof.
+  intros Hne H0. unfold del_one. cbn [rows]. destruct (nth_row (rows e) rid) as [cur|]; [now apply nth_row_set_other|reflexivity].
+Qed.
+
+Lemma fold_rows_other (f : eng -> N * row -> eng) ms rid' :
+  (forall e rid r, rid <> rid' -> rid <> 0 -> nth_row (rows (f e (rid, r))) rid' = nth_row (rows e) rid') ->
+  ~ In rid' (map fst ms) -> ~ In 0 (map fst ms) ->
+  forall e, nth_row (rows (fold_left f ms e)) rid' = nth_row (rows e) rid'.
+Proof.
+  intros Hf. induction ms as [|[rid r] t IH]; intros Hn H0 e; cbn [fold_left]; [reflexivity|].
+  cbn in Hn, H0. rewrite IH by tauto. apply Hf; intros E; subst; tauto.
+Qed.
+
+(* scan only yields ids >= its start, so never 0 *)
+Lemma scan_from_ge rs : forall s rid r, In (rid, r) (scan_from rs s) -> s <= rid.
+Proof.
+  induction rs as [|x t IH]; intros s rid r H; cbn in H; [destruct H|].
+  destruct (alive x); [destruct H as [[= <- _]|H]|]; try lia; apply IH in H; lia.
+Qed.
+Lemma matching_nonzero e c : ~ In 0 (map fst (matching e c)).
+Proof.
+  intros H. apply in_map_iff in H. destruct H as [[rid r] [E Hin]]. cbn in E. subst rid.
+  unfold matching in Hin. apply filter_In in Hin. destruct Hin as [Hin _]. apply scan_from_ge in Hin. lia.
+Qed.
+
+(* ================================================================== 1. row-lock exclusion *)
+Definition blocked (e : eng) (tx k : N) : bool :=
+  match blocks (enow e) tx (locks (ltab e)) k with Some _ => true | None => false end.
+
+Lemma first_conflict_hd now tx keys lk o :
+  first_conflict now tx keys lk = Some o ->
+  let k := hd 0 (filter (fun k => match blocks now tx lk k with Some _ => true | None => false end) keys) in
+  In k keys /\ blocks now tx lk k = Some o.
+Proof.
+  induction keys as [|k0 r IH]; cbn; [discriminate|].
+  destruct (blocks now tx lk k0) as [o'|] eqn:B.
+  - intros [= <-]. cbn. auto.
+  - intros H. destruct (IH H) as [A C]. auto.
+Qed.
+
+(* the outcome of "scan, lock all, then change": refused (nothing changes) or all matching rows free for tx *)
+Lemma do_write_cases e tx c f :
+  (exists o k, do_write e tx c f = (e, inr (o, k)) /\ In k (map fst (matching e c)) /\ blocks (enow e) tx (locks (ltab e)) k = Some o)
+  \/ (exists lt, do_write e tx c f = (fold_left f (matching e c) (with_txs e (txs e) lt), inl (N.of_nat (length (matching e c)))) /\
+        (forall k, In k (map fst (matching e c)) -> blocks (enow e) tx (locks (ltab e)) k = None) /\
+        lt = match map fst (matching e c) with [] => ltab e | _ => acquire (enow e) tx 0 (ltmo e) (map fst (matching e c)) (ltab e) end).
+Proof.
+  unfold do_write. destruct (first_conflict (enow e) tx (map fst (matching e c)) (locks (ltab e))) as [o|] eqn:F.
+  - left. destruct (first_conflict_hd _ _ _ _ _ F) as [A B]. eauto.
+  - right. eexists. split; [reflexivity|]. split; [|reflexivity]. now apply first_conflict_None.
+Qed.
+
+(* locks only exist on rows of the slab *)
+Definition LockRows (e : eng) : Prop :=
+  forall k lk, aget (locks (ltab e)) k = Some lk -> k <> 0 /\ (N.to_nat k <= length (rows e))%nat.
+
+Lemma nth_row_app_old rs r rid : rid <> 0 -> (N.to_nat rid <= length rs)%nat -> nth_row (rs ++ [r]) rid = nth_row rs rid.
+Proof.
+  intros H0 Hl. unfold nth_row. destruct (N.eqb_spec rid 0); [contradiction|]. apply nth_error_app1. lia.
+Qed.
+
+Section WithFlag.
+Variable lock_new : bool.
+
+(* a statement of tx never changes a row whose unexpired lock belongs to somebody else *)
+Theorem stmt_exclusion e tx o rid Y : LockRows e ->
+  holder (enow e) (ltab e) rid = Some Y -> Y <> tx ->
+  nth_row (rows (fst (stmt lock_new e tx o))) rid = nth_row (rows e) rid.
+Proof.
+  intros LR Hh Hne.
+  assert (Hb : blocks (enow e) tx (locks (ltab e)) rid = Some Y) by (apply blocks_holder; auto).
+  assert (Hex : rid <> 0 /\ (N.to_nat rid <= length (rows e))%nat).
+  { apply holder_Some in Hh. destruct Hh as [lk [G _]]. exact (LR _ _ G). }
+  destruct o; cbn [stmt]; try reflexivity.
+  - unfold do_insert. cbn [fst rows]. now apply nth_row_app_old.
+  - destruct (do_write_cases e tx c (upd_one tx col v)) as [[o [k [E _]]]|[lt [E [Hfree _]]]]; rewrite E; cbn [fst]; [reflexivity|].
+    rewrite fold_rows_other; [reflexivity| | |apply matching_nonzero].
+    + intros e0 rid0 r0 H1 H2. now apply upd_one_rows.
+    + intros Hin. specialize (Hfree rid Hin). congruence.
+  - destruct (do_write_cases e tx c (del_one tx)) as [[o [k [E _]]]|[lt [E [Hfree _]]]]; rewrite E; cbn [fst]; [reflexivity|].
+    rewrite fold_rows_other; [reflexivity| | |apply matching_nonzero].
+    + intros e0 rid0 r0 H1 H2. now apply del_one_rows.
+    + intros Hin. specialize (Hfree rid Hin). congruence.
+Qed.
+
+(* ... and if the statement's condition matches such a row, the whole statement is refused with a lock conflict
+   that names a real unexpired foreign holder of a matching row, and changes nothing *)
+Theorem stmt_conflict e tx c rid Y (o : rop) :
+  (exists col v t, o = RUpdate t c col v) \/ (exists t, o = RDelete t c) ->
+  In rid (map fst (matching e c)) -> holder (enow e) (ltab e) rid = Some Y -> Y <> tx ->
+  exists b k, stmt lock_new e tx o = (e, [4; b; k]) /\ In k (map fst (matching e c)) /\ holder (enow e) (ltab e) k = Some b /\ b <> tx.
+Proof.
+  intros Ho Hin Hh Hne.
+  assert (Hb : blocks (enow e) tx (locks (ltab e)) rid = Some Y) by (apply blocks_holder; auto).
+  destruct Ho as [[col [v [t ->]]]|[t ->]]; cbn [stmt].
+  - destruct (do_write_cases e tx c (upd_one tx col v)) as [[b [k [E [Hk Hbk]]]]|[lt [E [Hfree _]]]]; rewrite E.
+    + apply blocks_holder in Hbk. destruct Hbk. eauto 8.
+    + specialize (Hfree rid Hin). congruence.
+  - destruct (do_write_cases e tx c (del_one tx)) as [[b [k [E [Hk Hbk]]]]|[lt [E [Hfree _]]]]; rewrite E.
+    + apply blocks_holder in Hbk. destruct Hbk. eauto 8.
+    + specialize (Hfree rid Hin). congruence.
+Qed.
+End WithFlag.
+
+(* ================================================================== 2. invariants of every reachable state *)
+Definition EInv (e : eng) : Prop :=
+  TInv (ltab e) /\ LockRows e /\ (forall tx l, aget (txs e) tx = Some l -> tx < nexttx e).
+
+Lemma einit_EInv l0 : EInv (einit l0).
+Proof. split; [apply empty_TInv|]. split; [intros k lk H; discriminate|intros tx l H; discriminate]. Qed.
+
+Lemma scan_from_lt rs : forall s rid r, In (rid, r) (scan_from rs s) -> rid < s + N.of_nat (length rs).
+Proof.
+  induction rs as [|x t IH]; intros s rid r H; cbn in H; [destruct H|].
+  cbn [length]. destruct (alive x); [destruct H as [[= <- _]|H]|]; try lia; apply IH in H; lia.
+Qed.
+Lemma matching_exists e c k : In k (map fst (matching e c)) -> k <> 0 /\ (N.to_nat k <= length (rows e))%nat.
+Proof.
+  intros H. apply in_map_iff in H. destruct H as [[rid r] [E Hin]]. cbn in E. subst rid.
+  unfold matching in Hin. apply filter_In in Hin. destruct Hin as [Hin _].
+  pose proof (scan_from_ge _ _ _ _ Hin). pose proof (scan_from_lt _ _ _ _ Hin). lia.
+Qed.
+
+Lemma upd_one_len tx col v e ir : length (rows (upd_one tx col v e ir)) = length (rows e).
+Proof.
+  destruct ir as [rid r]. unfold upd_one. cbn [rows]. destruct (nth_row (rows e) rid) as [cur|]; [|reflexivity].
+  destruct (alive cur); [apply set_nth_length|reflexivity].
+Qed.
+Lemma del_one_len tx e ir : length (rows (del_one tx e ir)) = length (rows e).
+Proof.
+  destruct ir as [rid r]. unfold del_one. cbn [rows]. destruct (nth_row (rows e) rid); [apply set_nth_length|reflexivity].
+Qed.
+Lemma fold_len (f : eng -> N * row -> eng) ms :
+  (forall e ir, length (rows (f e ir)) = length (rows e)) -> forall e, length (rows (fold_left f ms e)) = length (rows e).
+Proof. intros Hf. induction ms as [|ir r IH]; intros e; cbn; [reflexivity|]. now rewrite IH, Hf. Qed.
+
+Lemma upd_one_Frame tx col v e ir : Frame e (upd_one tx col v e ir).
+Proof. exact (upd_one_frame tx col v e ir). Qed.
+Lemma del_one_Frame tx e ir : Frame e (del_one tx e ir).
+Proof. exact (del_one_frame tx e ir). Qed.
+
+(* txs keys are preserved by push_undo-only steps; we only need "active stays below nexttx" *)
+Definition TxBelow (e : eng) : Prop := forall tx l, aget (txs e) tx = Some l -> tx < nexttx e.
+Lemma Frame_TxBelow e e' : Frame e e' -> TxBelow e -> TxBelow e'.
+Proof.
+  intros [_ [_ [En [_ [_ [_ Ht]]]]]] B tx l G. rewrite En.
+  destruct (aget (txs e) tx) as [l0|] eqn:G0; [eapply B; eauto|]. apply Ht in G0. congruence.
+Qed.
+
+Lemma acquire_LockRows e tx keys (rs : list row) :
+  (forall k lk, aget (locks (ltab e)) k = Some lk -> k <> 0 /\ (N.to_nat k <= length rs)%nat) ->
+  (forall k, In k keys -> k <> 0 /\ (N.to_nat k <= length rs)%nat) ->
+  forall k lk, aget (locks (acquire (enow e) tx 0 (ltmo e) keys (ltab e))) k = Some lk -> k <> 0 /\ (N.to_nat k <= length rs)%nat.
+Proof.
+  intros Ho Hk k lk. unfold acquire; cbn [locks]. rewrite insert_all_get. destruct (mem k keys) eqn:M.
+  - intros _. apply Hk. now apply mem_In.
+  - apply Ho.
+Qed.
+
+Section WithFlag2.
+Variables lock_new gb : bool.
+
+Lemma do_write_EInv e tx c f :
+  (forall e ir, Frame e (f e ir)) -> (forall e ir, length (rows (f e ir)) = length (rows e)) ->
+  EInv e -> EInv (fst (do_write e tx c f)).
+Proof.
+  intros Hf Hl [Ht [Hr Hb]].
+  destruct (do_write_cases e tx c f) as [[o [k [E _]]]|[lt0 [E [_ Elt]]]]; rewrite E; cbn [fst]; [exact (conj Ht (conj Hr Hb))|].
+  set (e0 := with_txs e (txs e) lt0).
+  pose proof (fold_frame f (matching e c) Hf e0) as Fr. pose proof (fold_len f (matching e c) Hl e0) as Ln.
+  pose proof Fr as [F1 [F2 [F3 [F4 [F5 [F6 F7]]]]]].
+  assert (Hlt : TInv lt0 /\ forall k lk, aget (locks lt0) k = Some lk -> k <> 0 /\ (N.to_nat k <= length (rows e))%nat).
+  { subst lt0. destruct (map fst (matching e c)) as [|k0 ks] eqn:Ek; [split; auto|].
+    split; [now apply acquire_TInv|]. apply acquire_LockRows; [exact Hr|]. rewrite <- Ek. intros k. apply matching_exists. }
+  destruct Hlt as [Hlt1 Hlt2]. split; [|split].
+  - rewrite F1. exact Hlt1.
+  - intros k lk. rewrite F1, Ln. cbn [ltab rows e0 with_txs]. apply Hlt2.
+  - apply (Frame_TxBelow e0 _ Fr). unfold TxBelow. intros tx0 l G. cbn in G. eapply Hb; eauto.
+Qed.
+
+Lemma stmt_EInv e tx o : EInv e -> EInv (fst (stmt lock_new e tx o)).
+Proof.
+  intros I. destruct o; cbn [stmt]; try exact I.
+  - destruct I as [Ht [Hr Hb]]. unfold do_insert. cbn [fst]. split; [|split]; cbn.
+    + destruct lock_new; [apply try_lock_TInv|]; assumption.
+    + unfold LockRows. cbn [rows ltab]. set (rs := rows e ++ [R true a b]).
+      assert (Hold : forall k lk, aget (locks (ltab e)) k = Some lk -> k <> 0 /\ (N.to_nat k <= length rs)%nat).
+      { intros k0 lk0 G0. destruct (Hr _ _ G0). split; [assumption|]. unfold rs. rewrite app_length. cbn. lia. }
+      destruct lock_new; [|exact Hold].
+      intros k lk G. unfold try_lock in G. destruct (first_conflict _ _ _ _); cbn [fst] in G; [eapply Hold; eauto|].
+      revert G. apply acquire_LockRows; [exact Hold|]. intros k0 [<-|[]]. unfold rs. rewrite app_length. cbn. lia.
+    + intros tx1 l G. rewrite push_undo_get in G. destruct (aget (txs e) tx1) eqn:G0; [eapply Hb; eauto|discriminate].
+  - destruct (do_write e tx c (upd_one tx col v)) as [e' [n|[o k]]] eqn:E;
+      pose proof (do_write_EInv e tx c (upd_one tx col v) (upd_one_Frame tx col v) (upd_one_len tx col v) I) as H; rewrite E in H; exact H.
+  - destruct (do_write e tx c (del_one tx)) as [e' [n|[o k]]] eqn:E;
+      pose proof (do_write_EInv e tx c (del_one tx) (del_one_Frame tx) (del_one_len tx) I) as H; rewrite E in H; exact H.
+Qed.
+
+Lemma end_tx_EInv e tx : EInv e -> EInv (end_tx e tx).
+Proof.
+  intros [Ht [Hr Hb]]. unfold end_tx. split; [|split]; cbn.
+  - now apply release_TInv.
+  - intros k lk G. apply release_only_removes in G. eauto.
+  - intros tx0 l. rewrite aget_adel. destruct (N.eqb tx tx0); [discriminate|eauto].
+Qed.
+
+Lemma apply_undo_frame e u :
+  ltab (fst (apply_undo gb e u)) = ltab e /\ txs (fst (apply_undo gb e u)) = txs e /\ nexttx (fst (apply_undo gb e u)) = nexttx e /\
+  length (rows (fst (apply_undo gb e u))) = length (rows e) /\ enow (fst (apply_undo gb e u)) = enow e /\
+  hmeta (fst (apply_undo gb e u)) = hmeta e /\ bmeta (fst (apply_undo gb e u)) = bmeta e /\ ltmo (fst (apply_undo gb e u)) = ltmo e.
+Proof.
+  destruct u; cbn [apply_undo]; destruct (nth_row (rows e) rid) as [cur|]; try destruct (alive cur); cbn;
+    repeat split; try reflexivity; apply set_nth_length.
+Qed.
+
+Lemma undo_fold_frame us : forall e b,
+  let e' := fst (fold_left (fun ae u => let '(e', er) := apply_undo gb (fst ae) u in (e', snd ae || er)) us (e, b)) in
+  ltab e' = ltab e /\ txs e' = txs e /\ nexttx e' = nexttx e /\ length (rows e') = length (rows e) /\ enow e' = enow e /\
+  hmeta e' = hmeta e /\ bmeta e' = bmeta e /\ ltmo e' = ltmo e.
+Proof.
+  induction us as [|u r IH]; intros e b; cbn [fold_left fst]; [repeat split; reflexivity|].
+  pose proof (apply_undo_frame e u) as F. destruct (apply_undo gb e u) as [e1 er]. cbn [fst snd] in *.
+  specialize (IH e1 (b || er)). cbn zeta in IH.
+  destruct F as [F1 [F2 [F3 [F4 [F5 [F6 [F7 F8]]]]]]]. destruct IH as [I1 [I2 [I3 [I4 [I5 [I6 [I7 I8]]]]]]].
+  repeat split; congruence.
+Qed.
+
+Lemma do_rollback_EInv e tx log : EInv e -> EInv (fst (do_rollback gb e tx log)).
+Proof.
+  intros [Ht [Hr Hb]]. unfold do_rollback.
+  pose proof (undo_fold_frame (List.rev log) e false) as F. cbn zeta in F.
+  destruct (fold_left _ (List.rev log) (e, false)) as [e1 err]. cbn [fst] in *.
+  destruct F as [F1 [F2 [F3 [F4 _]]]]. apply end_tx_EInv. split; [|split].
+  - now rewrite F1.
+  - intros k lk. rewrite F1, F4. apply Hr.
+  - intros tx0 l. rewrite F2, F3. apply Hb.
+Qed.
+
+Lemma begin_EInv e : EInv e -> EInv (fst (begin e)).
+Proof.
+  intros [Ht [Hr Hb]]. unfold begin. cbn. split; [exact Ht|]. split; [exact Hr|].
+  intros tx l. cbn. rewrite aget_aset. destruct (N.eqb_spec (nexttx e) tx) as [<-|]; [intros _; lia|].
+  intros G. pose proof (Hb _ _ G). lia.
+Qed.
+
+Theorem rstep_EInv e o : EInv e -> EInv (fst (rstep lock_new gb e o)).
+Proof.
+  intros I. destruct o; cbn [rstep].
+  - pose proof (begin_EInv e I) as H. destruct (begin e) as [e' tx]. exact H.
+  - destruct tx as [tx|].
+    + destruct (aget (txs e) tx); [now apply stmt_EInv|exact I].
+    + pose proof (begin_EInv e I) as H0. destruct (begin e) as [e0 tx]. cbn [fst] in H0.
+      pose proof (stmt_EInv e0 tx (RInsert None a b) H0) as H1. destruct (stmt lock_new e0 tx (RInsert None a b)) as [e1 ret]. cbn [fst] in H1.
+      destruct (is_ok ret); cbn [fst]; [now apply end_tx_EInv|now apply do_rollback_EInv].
+  - destruct tx as [tx|].
+    + destruct (aget (txs e) tx); [now apply stmt_EInv|exact I].
+    + pose proof (begin_EInv e I) as H0. destruct (begin e) as [e0 tx]. cbn [fst] in H0.
+      pose proof (stmt_EInv e0 tx (RUpdate None c col v) H0) as H1. destruct (stmt lock_new e0 tx (RUpdate None c col v)) as [e1 ret]. cbn [fst] in H1.
+      destruct (is_ok ret); cbn [fst]; [now apply end_tx_EInv|now apply do_rollback_EInv].
+  - destruct tx as [tx|].
+    + destruct (aget (txs e) tx); [now apply stmt_EInv|exact I].
+    + pose proof (begin_EInv e I) as H0. destruct (begin e) as [e0 tx]. cbn [fst] in H0.
+      pose proof (stmt_EInv e0 tx (RDelete None c) H0) as H1. destruct (stmt lock_new e0 tx (RDelete None c)) as [e1 ret]. cbn [fst] in H1.
+      destruct (is_ok ret); cbn [fst]; [now apply end_tx_EInv|now apply do_rollback_EInv].
+  - destruct (aget (txs e) tx); cbn [fst]; [now apply end_tx_EInv|exact I].
+  - destruct (aget (txs e) tx) as [log|]; [|exact I].
+    pose proof (do_rollback_EInv e tx log I) as H. destruct (do_rollback gb e tx log) as [e' err]. exact H.
+  - destruct (existsb (N.eqb col) (hmeta e)); [exact I|]. destruct I as [Ht [Hr Hb]]. exact (conj Ht (conj Hr Hb)).
+  - destruct (existsb (N.eqb col) (bmeta e)); [exact I|]. destruct I as [Ht [Hr Hb]]. exact (conj Ht (conj Hr Hb)).
+  - destruct I as [Ht [Hr Hb]]. exact (conj Ht (conj Hr Hb)).
+  - destruct I as [Ht [Hr Hb]]. pose proof (cleanup_expired_TInv (enow e) (ltab e) Ht) as Hc.
+    destruct (cleanup_expired (enow e) (ltab e)) as [t' n] eqn:E. cbn [fst] in *. split; [exact Hc|]. split; [|exact Hb].
+    intros k lk G. cbn in G. apply (Hr k lk).
+    assert (t' = fold_left remove_locked (expired_keys (enow e) (locks (ltab e))) (ltab e)) by (unfold cleanup_expired in E; congruence).
+    subst t'. rewrite remove_fold_get in G. destruct (mem k _); [discriminate|exact G].
+Qed.
+
+Theorem rrun_EInv ops : forall e, EInv e -> EInv (rrun lock_new gb e ops).
+Proof.
+  induction ops as [|o r IH]; intros e I; [exact I|].
+  change (rrun lock_new gb e (o :: r)) with (rrun lock_new gb (fst (rstep lock_new gb e o)) r). apply IH. now apply rstep_EInv.
+Qed.
+End WithFlag2.
+
+(* ================================================================== 3. locks vanish at the end; finished transactions are unusable *)
+Theorem end_tx_releases e tx : EInv e -> forall k lk, aget (locks (ltab (end_tx e tx))) k = Some lk -> owner lk <> tx.
+Proof. intros [[_ Hi] _] k lk. cbn. now apply release_none_left. Qed.
+
+Lemma do_rollback_ltab gb e tx log : ltab (fst (do_rollback gb e tx log)) = release tx (ltab e) /\ txs (fst (do_rollback gb e tx log)) = adel (txs e) tx
+  /\ nexttx (fst (do_rollback gb e tx log)) = nexttx e.
+Proof.
+  unfold do_rollback. pose proof (undo_fold_frame gb (List.rev log) e false) as F. cbn zeta in F.
+  destruct (fold_left _ (List.rev log) (e, false)) as [e1 err]. cbn [fst] in *.
+  destruct F as [F1 [F2 [F3 _]]]. unfold end_tx. cbn. now rewrite F1, F2, F3.
+Qed.
+
+Theorem rollback_releases gb e tx log : EInv e -> forall k lk, aget (locks (ltab (fst (do_rollback gb e tx log)))) k = Some lk -> owner lk <> tx.
+Proof. intros [[_ Hi] _] k lk. destruct (do_rollback_ltab gb e tx log) as [-> _]. now apply release_none_left. Qed.
+
+Section WithFlag3.
+Variables lock_new gb : bool.
+
+Definition Gone (e : eng) (tx : N) : Prop := aget (txs e) tx = None /\ tx < nexttx e.
+
+Lemma stmt_Gone e tx0 o tx : Gone e tx -> Gone (fst (stmt lock_new e tx0 o)) tx.
+Proof.
+  intros [Gn Lt]. destruct o; cbn [stmt]; try (split; assumption).
+  - unfold do_insert. cbn. split; [now apply push_undo_active|exact Lt].
+  - destruct (do_write_cases e tx0 c (upd_one tx0 col v)) as [[o [k [E _]]]|[lt0 [E _]]]; rewrite E; cbn [fst]; [split; assumption|].
+    destruct (fold_frame (upd_one tx0 col v) (matching e c) (upd_one_Frame tx0 col v) (with_txs e (txs e) lt0)) as [_ [_ [En [_ [_ [_ Ht]]]]]].
+    split; [apply Ht; exact Gn|rewrite En; exact Lt].
+  - destruct (do_write_cases e tx0 c (del_one tx0)) as [[o [k [E _]]]|[lt0 [E _]]]; rewrite E; cbn [fst]; [split; assumption|].
+    destruct (fold_frame (del_one tx0) (matching e c) (del_one_Frame tx0) (with_txs e (txs e) lt0)) as [_ [_ [En [_ [_ [_ Ht]]]]]].
+    split; [apply Ht; exact Gn|rewrite En; exact Lt].
+Qed.
+
+Lemma end_tx_Gone e tx0 tx : Gone e tx -> Gone (end_tx e tx0) tx.
+Proof. intros [Gn Lt]. split; cbn; [|exact Lt]. rewrite aget_adel. destruct (N.eqb tx0 tx); [reflexivity|exact Gn]. Qed.
+Lemma rollback_Gone e tx0 log tx : Gone e tx -> Gone (fst (do_rollback gb e tx0 log)) tx.
+Proof.
+  intros [Gn Lt]. destruct (do_rollback_ltab gb e tx0 log) as [_ [Et En]]. split; [|now rewrite En].
+  rewrite Et, aget_adel. destruct (N.eqb tx0 tx); [reflexivity|exact Gn].
+Qed.
+Lemma begin_Gone e tx : Gone e tx -> Gone (fst (begin e)) tx.
+Proof.
+  intros [Gn Lt]. unfold begin. split; cbn; [|lia]. rewrite aget_aset. destruct (N.eqb_spec (nexttx e) tx); [lia|exact Gn].
+Qed.
+
+Lemma internal_Gone e o tx : Gone e tx ->
+  Gone (fst (let '(e0, t) := begin e in let '(e1, ret) := stmt lock_new e0 t o in
+             if is_ok ret then (end_tx e1 t, ret)
+             else (fst (do_rollback gb e1 t (match aget (txs e1) t with Some l => l | None => [] end)), ret))) tx.
+Proof.
+  intros H. pose proof (begin_Gone e tx H) as H0. destruct (begin e) as [e0 t]. cbn [fst] in H0.
+  pose proof (stmt_Gone e0 t o tx H0) as H1. destruct (stmt lock_new e0 t o) as [e1 ret]. cbn [fst] in H1.
+  destruct (is_ok ret); cbn [fst]; [now apply end_tx_Gone|now apply rollback_Gone].
+Qed.
+
+(* once a transaction has ended it stays ended: its id is never handed out again *)
+Theorem rstep_Gone e o tx : Gone e tx -> Gone (fst (rstep lock_new gb e o)) tx.
+Proof.
+  intros H. destruct o; cbn [rstep].
+  - pose proof (begin_Gone e tx H) as H0. destruct (begin e). exact H0.
+  - destruct tx0 as [t|]; [destruct (aget (txs e) t); [now apply stmt_Gone|exact H]|now apply internal_Gone].
+  - destruct tx0 as [t|]; [destruct (aget (txs e) t); [now apply stmt_Gone|exact H]|now apply internal_Gone].
+  - destruct tx0 as [t|]; [destruct (aget (txs e) t); [now apply stmt_Gone|exact H]|now apply internal_Gone].
+  - destruct (aget (txs e) tx0); cbn [fst]; [now apply end_tx_Gone|exact H].
+  - destruct (aget (txs e) tx0) as [log|]; [|exact H].
+    pose proof (rollback_Gone e tx0 log tx H) as H0. destruct (do_rollback gb e tx0 log). exact H0.
+  - destruct (existsb _ _); exact H.
+  - destruct (existsb _ _); exact H.
+  - exact H.
+  - destruct (cleanup_expired (enow e) (ltab e)). exact H.
+Qed.
+
+Theorem rrun_Gone ops : forall e tx, Gone e tx -> Gone (rrun lock_new gb e ops) tx.
+Proof.
+  induction ops as [|o r IH]; intros e tx H; [exact H|].
+  change (rrun lock_new gb e (o :: r)) with (rrun lock_new gb (fst (rstep lock_new gb e o)) r). apply IH. now apply rstep_Gone.
+Qed.
+
+(* commit / rollback end the transaction ... *)
+Theorem finish_makes_Gone e tx : EInv e -> (exists l, aget (txs e) tx = Some l) ->
+  Gone (fst (rstep lock_new gb e (RCommit tx))) tx /\ Gone (fst (rstep lock_new gb e (RRollback tx))) tx.
+Proof.
+  intros [_ [_ Hb]] [l G]. cbn [rstep]. rewrite G. split.
+  - cbn [fst]. split; cbn; [now rewrite aget_adel, N.eqb_refl|eauto].
+  - destruct (do_rollback_ltab gb e tx l) as [_ [Et En]]. destruct (do_rollback gb e tx l) as [e' err]. cbn [fst] in *.
+    split; [rewrite Et, aget_adel, N.eqb_refl; reflexivity|rewrite En; eauto].
+Qed.
+
+(* ... and every later call that names it is rejected with TransactionNotFound and changes nothing *)
+Theorem gone_rejected e tx o : aget (txs e) tx = None ->
+  (exists a b, o = RInsert (Some tx) a b) \/ (exists c col v, o = RUpdate (Some tx) c col v) \/ (exists c, o = RDelete (Some tx) c)
+  \/ o = RCommit tx \/ o = RRollback tx ->
+  rstep lock_new gb e o = (e, [1]).
+Proof.
+  intros G [[a [b ->]]|[[c [col [v ->]]]|[[c ->]|[->| ->]]]]; cbn [rstep]; now rewrite G.
+Qed.
+
+(* a successful statement leaves every row it matched (or inserted) locked by its transaction *)
+Theorem writer_holds_lock e tx c (o : rop) n :
+  (exists col v t, o = RUpdate t c col v) \/ (exists t, o = RDelete t c) ->
+  snd (stmt lock_new e tx o) = [0; n] ->
+  forall k, In k (map fst (matching e c)) -> holder (enow e) (ltab (fst (stmt lock_new e tx o))) k = Some tx.
+Proof.
+  intros Ho Hret k Hk.
+  assert (G : forall f, (forall e ir, Frame e (f e ir)) ->
+            snd (match do_write e tx c f with (e', inl n) => (e', [0; n]) | (e', inr (o, k)) => (e', [4; o; k]) end) = [0; n] ->
+            holder (enow e) (ltab (fst (match do_write e tx c f with (e', inl n) => (e', [0; n]) | (e', inr (o, k)) => (e', [4; o; k]) end))) k = Some tx).
+  { intros f Hf. destruct (do_write_cases e tx c f) as [[o' [k' [E _]]]|[lt0 [E [_ Elt]]]]; rewrite E; cbn [fst snd]; [discriminate|].
+    intros _. destruct (fold_frame f (matching e c) Hf (with_txs e (txs e) lt0)) as [El _]. rewrite El. cbn [ltab with_txs].
+    subst lt0. destruct (map fst (matching e c)) as [|k0 ks] eqn:Ek; [destruct Hk|].
+    unfold holder, acquire; cbn [locks]. rewrite insert_all_get. apply mem_In in Hk. rewrite Hk, fresh_lock_unexpired. reflexivity. }
+  destruct Ho as [[col [v [t ->]]]|[t ->]]; cbn [stmt] in *.
+  - apply (G (upd_one tx col v) (upd_one_Frame tx col v)). exact Hret.
+  - apply (G (del_one tx) (del_one_Frame tx)). exact Hret.
+Qed.
+End WithFlag3.
+
+Theorem inserter_holds_lock e tx a b t : EInv e ->
+  let r := stmt true e tx (RInsert t a b) in
+  exists rid, snd r = [0; rid] /\ holder (enow e) (ltab (fst r)) rid = Some tx /\ nth_row (rows (fst r)) rid = Some (R true a b).
+Proof.
+  intros [Ht [Hr Hb]]. cbn [stmt do_insert fst snd]. eexists. split; [reflexivity|]. split.
+  - cbn [ltab]. unfold try_lock.
+    assert (F : first_conflict (enow e) tx [N.of_nat (length (rows e)) + 1] (locks (ltab e)) = None).
+    { apply first_conflict_None. intros k [<-|[]]. unfold blocks.
+      destruct (aget (locks (ltab e)) (N.of_nat (length (rows e)) + 1)) as [lk|] eqn:G; [|reflexivity].
+      destruct (Hr _ _ G). lia. }
+    rewrite F. cbn [fst]. unfold holder, acquire; cbn [locks]. rewrite insert_all_get. cbn [mem existsb]. rewrite N.eqb_refl. cbn.
+    rewrite fresh_lock_unexpired. reflexivity.
+  - cbn [rows]. unfold nth_row. destruct (N.eqb_spec (N.of_nat (length (rows e)) + 1) 0); [lia|].
+    replace (N.to_nat (N.of_nat (length (rows e)) + 1 - 1)) with (length (rows e)) by lia.
+    rewrite nth_error_app2 by lia. now rewrite Nat.sub_diag.
+Qed.
+
+(* ================================================================== 4. scan, indexes, and queries answered through an index *)
+Lemma scan_from_spec rs : forall s rid r,
+  In (rid, r) (scan_from rs s) <-> (s <= rid /\ nth_error rs (N.to_nat (rid - s)) = Some r /\ alive r = true).
+Proof.
+  induction rs as [|x t IH]; intros s rid r; cbn [scan_from].
+  - split; [intros []|]. intros [_ [H _]]. destruct (N.to_nat (rid - s)); discriminate.
+  - assert (Hstep : forall rid, N.succ s <= rid -> N.to_nat (rid - s) = Datatypes.S (N.to_nat (rid - N.succ s))) by (intros; lia).
+    destruct (alive x) eqn:A.
+    + cbn [In]. rewrite IH. split.
+      * intros [[= <- <-]|[Hle [Hn Ha]]].
+        -- split; [lia|]. rewrite N.sub_diag. cbn. auto.
+        -- split; [lia|]. rewrite (Hstep rid Hle). cbn. auto.
+      * intros [Hle [Hn Ha]]. destruct (N.eq_dec rid s) as [->|Hne].
+        -- left. rewrite N.sub_diag in Hn. cbn in Hn. congruence.
+        -- right. assert (N.succ s <= rid) by lia. rewrite (Hstep rid H) in Hn. cbn in Hn. auto.
+    + rewrite IH. split.
+      * intros [Hle [Hn Ha]]. split; [lia|]. rewrite (Hstep rid Hle). cbn. auto.
+      * intros [Hle [Hn Ha]]. destruct (N.eq_dec rid s) as [->|Hne].
+        -- rewrite N.sub_diag in Hn. cbn in Hn. congruence.
+        -- assert (N.succ s <= rid) by lia. rewrite (Hstep rid H) in Hn. cbn in Hn. auto.
+Qed.
+
+Lemma scan_spec rs rid r : In (rid, r) (scan rs) <-> nth_row rs rid = Some r /\ alive r = true.
+Proof.
+  unfold scan, nth_row. rewrite scan_from_spec. destruct (N.eqb_spec rid 0) as [->|Hne].
+  - split; [intros [H _]; lia|intros [H _]; discriminate].
+  - split; [intros [_ H]; exact H|intros H; split; [lia|exact H]].
+Qed.
+
+(* every live row is present in every index that exists (missing entries are what a query could notice;
+   superfluous ones are filtered by the re-check) *)
+Definition IdxOK (e : eng) : Prop :=
+  (forall col rid r, In col (hmeta e) -> In (rid, r) (scan (rows e)) -> In (col, getcol r col, rid) (hent e)) /\
+  (forall col rid r, In col (bmeta e) -> In (rid, r) (scan (rows e)) -> In (col, getcol r col, rid) (bent e)).
+
+Lemma existsb_eqb_In x l : existsb (N.eqb x) l = true <-> In x l.
+Proof. exact (mem_In x l). Qed.
+
+Lemma candidates_complete e c : IdxOK e -> forall ids, candidates e c = Some ids ->
+  forall rid r, In (rid, r) (scan (rows e)) -> evalc c r = true -> In rid ids.
+Proof.
+  intros [Hh Hb]. induction c as [|col v|col v|col v|a IHa b IHb]; intros ids Hc rid r Hin Hev; cbn [candidates] in Hc.
+  - discriminate.
+  - destruct (existsb (N.eqb col) (hmeta e)) eqn:M; [|discriminate]. injection Hc as <-.
+    apply existsb_eqb_In in M. cbn in Hev. apply N.eqb_eq in Hev.
+    apply in_map_iff. exists (col, getcol r col, rid). split; [reflexivity|]. apply filter_In. split; [now apply Hh|].
+    cbn. rewrite N.eqb_refl, Hev, N.eqb_refl. reflexivity.
+  - destruct (existsb (N.eqb col) (bmeta e)) eqn:M; [|discriminate]. injection Hc as <-.
+    apply existsb_eqb_In in M. cbn in Hev.
+    apply in_map_iff. exists (col, getcol r col, rid). split; [reflexivity|]. apply filter_In. split; [now apply Hb|].
+    cbn. rewrite N.eqb_refl, Hev. reflexivity.
+  - destruct (existsb (N.eqb col) (bmeta e)) eqn:M; [|discriminate]. injection Hc as <-.
+    apply existsb_eqb_In in M. cbn in Hev.
+    apply in_map_iff. exists (col, getcol r col, rid). split; [reflexivity|]. apply filter_In. split; [now apply Hb|].
+    cbn. rewrite N.eqb_refl, Hev. reflexivity.
+  - cbn in Hev. apply andb_true_iff in Hev. destruct Hev as [Ea Eb].
+    destruct (candidates e a) as [la|] eqn:Ca; [injection Hc as <-; eapply IHa; eauto|eapply IHb; eauto].
+Qed.
+
+(* B-tree entries of live rows carry the row's current value; entry lists are duplicate-free *)
+Definition EntOK (e : eng) : Prop :=
+  NoDup (hent e) /\ NoDup (bent e) /\ IdxOK e /\
+  (forall col v rid r, In col (bmeta e) -> In (col, v, rid) (bent e) -> In (rid, r) (scan (rows e)) -> v = getcol r col).
+
+(* --- sorting facts --- *)
+Lemma insert_sorted_perm x l : Permutation (insert_sorted x l) (x :: l).
+Proof.
+  induction l as [|y r IH]; cbn; [apply Permutation_refl|]. destruct (N.leb x y); [apply Permutation_refl|].
+  eapply Permutation_trans; [apply perm_skip; exact IH|apply perm_swap].
+Qed.
+Lemma sortN_perm l : Permutation (sortN l) l.
+Proof. induction l as [|x r IH]; cbn; [constructor|]. eapply Permutation_trans; [apply insert_sorted_perm|now apply perm_skip]. Qed.
+
+Lemma insert_sorted_sorted x l : StronglySorted N.le l -> StronglySorted N.le (insert_sorted x l).
+Proof.
+  induction l as [|y r IH]; intros S; cbn; [repeat constructor|].
+  inversion S as [|? ? S' F]; subst. destruct (N.leb_spec x y).
+  - constructor; [exact S|]. constructor; [exact H|]. rewrite Forall_forall in *. intros z Hz. specialize (F z Hz). lia.
+  - constructor; [now apply IH|]. rewrite Forall_forall in *. intros z Hz.
+    apply (Permutation_in _ (insert_sorted_perm x r)) in Hz. destruct Hz as [<-|Hz]; [lia|auto].
+Qed.
+Lemma sortN_sorted l : StronglySorted N.le (sortN l).
+Proof. induction l as [|x r IH]; cbn; [constructor|now apply insert_sorted_sorted]. Qed.
+
+Lemma sorted_perm_eq l1 : forall l2, StronglySorted N.le l1 -> StronglySorted N.le l2 -> Permutation l1 l2 -> l1 = l2.
+Proof.
+  induction l1 as [|a r IH]; intros l2 S1 S2 P.
+  - apply Permutation_nil in P. now subst.
+  - destruct l2 as [|b r2]; [apply Permutation_sym, Permutation_nil in P; discriminate|].
+    inversion S1 as [|? ? S1' F1]; inversion S2 as [|? ? S2' F2]; subst. rewrite Forall_forall in F1, F2.
+    assert (a = b).
+    { assert (Ha : In a (b :: r2)) by (eapply Permutation_in; [exact P|now left]).
+      assert (Hb : In b (a :: r)) by (eapply Permutation_in; [apply Permutation_sym; exact P|now left]).
+      destruct Ha as [->|Ha]; [reflexivity|]. destruct Hb as [->|Hb]; [reflexivity|].
+      specialize (F1 b Hb). specialize (F2 a Ha). lia. }
+    subst b. f_equal. apply IH; auto. eapply Permutation_cons_inv; eauto.
+Qed.
+
+Lemma lt_sorted_le l : StronglySorted N.lt l -> StronglySorted N.le l.
+Proof.
+  induction 1; constructor; auto. rewrite Forall_forall in *. intros z Hz. specialize (H0 z Hz). lia.
+Qed.
+Lemma lt_sorted_NoDup l : StronglySorted N.lt l -> NoDup l.
+Proof.
+  induction 1; constructor; auto. rewrite Forall_forall in H0. intros Hin. specialize (H0 a Hin). lia.
+Qed.
+
+Lemma scan_from_sorted rs : forall s, StronglySorted N.lt (map fst (scan_from rs s)).
+Proof.
+  induction rs as [|x t IH]; intros s; cbn [scan_from]; [constructor|].
+  destruct (alive x); [|apply IH]. cbn. constructor; [apply IH|]. rewrite Forall_forall. intros z Hz.
+  apply in_map_iff in Hz. destruct Hz as [[rid r] [<- Hin]]. apply scan_from_ge in Hin. cbn. lia.
+Qed.
+Lemma filter_map_fst_sorted {B} (p : N * B -> bool) (l : list (N * B)) :
+  StronglySorted N.lt (map fst l) -> StronglySorted N.lt (map fst (filter p l)).
+Proof.
+  induction l as [|x r IH]; cbn; intros S; [constructor|]. inversion S as [|? ? S' F]; subst.
+  destruct (p x); cbn; [|auto]. constructor; [auto|]. rewrite Forall_forall in *. intros z Hz.
+  apply F. apply in_map_iff in Hz. destruct Hz as [y [<- Hy]]. apply filter_In in Hy. apply in_map. tauto.
+Qed.
+Lemma matching_sorted e c : StronglySorted N.lt (map fst (matching e c)).
+Proof. unfold matching, scan. apply filter_map_fst_sorted, scan_from_sorted. Qed.
+
+(* --- no candidate id survives the re-check twice --- *)
+Lemma NoDup_map_snd_filter (F : list ent) (ok : N -> bool) :
+  NoDup F -> (forall x y, In x F -> In y F -> ok (snd x) = true -> snd x = snd y -> x = y) ->
+  NoDup (filter ok (map snd F)).
+Proof.
+  induction F as [|x r IH]; cbn; intros ND Hinj; [constructor|]. inversion ND as [|? ? Hn ND']; subst.
+  assert (IH' : NoDup (filter ok (map snd r))) by (apply IH; [exact ND'|intros; apply Hinj; auto]).
+  destruct (ok (snd x)) eqn:O; [|exact IH']. constructor; [|exact IH'].
+  intros Hin. apply filter_In in Hin. destruct Hin as [Hin _]. apply in_map_iff in Hin. destruct Hin as [y [E Hy]].
+  assert (x = y) by (apply Hinj; auto). subst y. contradiction.
+Qed.
+
+Lemma cand_nodup e c (ok : N -> bool) : EntOK e ->
+  (forall rid, ok rid = true -> exists r, In (rid, r) (scan (rows e))) ->
+  forall ids, candidates e c = Some ids -> NoDup (filter ok ids).
+Proof.
+  intros [Nh [Nb [_ Snd]]] Hok. induction c as [|col v|col v|col v|a IHa b IHb]; intros ids Hc; cbn [candidates] in Hc.
+  - discriminate.
+  - destruct (existsb (N.eqb col) (hmeta e)); [|discriminate]. injection Hc as <-.
+    apply NoDup_map_snd_filter; [now apply NoDup_filter|].
+    intros [[c1 v1] r1] [[c2 v2] r2] H1 H2 _ E. apply filter_In in H1, H2. cbn in *. destruct H1 as [_ P1], H2 as [_ P2].
+    apply andb_true_iff in P1, P2. destruct P1 as [A1 B1], P2 as [A2 B2]. apply N.eqb_eq in A1, B1, A2, B2. congruence.
+  - destruct (existsb (N.eqb col) (bmeta e)) eqn:M; [|discriminate]. injection Hc as <-. apply existsb_eqb_In in M.
+    apply NoDup_map_snd_filter; [now apply NoDup_filter|].
+    intros [[c1 v1] r1] [[c2 v2] r2] H1 H2 O E. apply filter_In in H1, H2. cbn in *. destruct H1 as [I1 P1], H2 as [I2 P2].
+    apply andb_true_iff in P1, P2. destruct P1 as [A1 _], P2 as [A2 _]. apply N.eqb_eq in A1, A2. subst c1 c2 r2.
+    destruct (Hok r1 O) as [r Hr]. rewrite (Snd col v1 r1 r M I1 Hr), (Snd col v2 r1 r M I2 Hr). reflexivity.
+  - destruct (existsb (N.eqb col) (bmeta e)) eqn:M; [|discriminate]. injection Hc as <-. apply existsb_eqb_In in M.
+    apply NoDup_map_snd_filter; [now apply NoDup_filter|].
+    intros [[c1 v1] r1] [[c2 v2] r2] H1 H2 O E. apply filter_In in H1, H2. cbn in *. destruct H1 as [I1 P1], H2 as [I2 P2].
+    apply andb_true_iff in P1, P2. destruct P1 as [A1 _], P2 as [A2 _]. apply N.eqb_eq in A1, A2. subst c1 c2 r2.
+    destruct (Hok r1 O) as [r Hr]. rewrite (Snd col v1 r1 r M I1 Hr), (Snd col v2 r1 r M I2 Hr). reflexivity.
+  - destruct (candidates e a) as [la|]; [injection Hc as <-; now apply IHa|now apply IHb].
+Qed.
+
+Lemma row_ok_scan e c rid : row_ok e c rid = true <-> exists r, In (rid, r) (scan (rows e)) /\ evalc c r = true.
+Proof.
+  unfold row_ok. split.
+  - destruct (nth_row (rows e) rid) as [r|] eqn:G; [|discriminate]. intros H. apply andb_true_iff in H. destruct H.
+    exists r. split; [apply scan_spec; auto|assumption].
+  - intros [r [Hin Ev]]. apply scan_spec in Hin. destruct Hin as [-> A]. now rewrite A, Ev.
+Qed.
+
+(* with complete and sound indexes, a query answered through an index returns exactly what the scan returns:
+   the same rows, each once, in the same order *)
+Theorem select_index_eq_scan e c : EntOK e -> select_ids e c = map fst (matching e c).
+Proof.
+  intros I. unfold select_ids. destruct (candidates e c) as [ids|] eqn:Hc; [|reflexivity].
+  apply sorted_perm_eq; [apply sortN_sorted|apply lt_sorted_le, matching_sorted|].
+  eapply Permutation_trans; [apply sortN_perm|].
+  apply NoDup_Permutation.
+  - eapply cand_nodup; eauto. intros rid H. apply row_ok_scan in H. destruct H as [r [H _]]. eauto.
+  - apply lt_sorted_NoDup, matching_sorted.
+  - intros rid. rewrite filter_In, row_ok_scan. unfold matching. rewrite in_map_iff. split.
+    + intros [_ [r [Hin Ev]]]. exists (rid, r). split; [reflexivity|]. apply filter_In. auto.
+    + intros [[rid' r] [E Hin]]. cbn in E. subst rid'. apply filter_In in Hin. destruct Hin as [Hin Ev]. cbn in Ev.
+      split; [|eauto]. destruct I as [_ [_ [Io _]]]. eapply candidates_complete; eauto.
+Qed.
+
+Lemma einit_IdxOK l0 : IdxOK (einit l0).
+Proof. split; intros col rid r []. Qed.
+
+(* set-style entry operations *)
+Lemma eadd_In x y l : In y (eadd x l) <-> y = x \/ In y l.
+Proof.
+  unfold eadd. destruct (existsb (ent_eqb x) l) eqn:E.
+  - split; [auto|]. intros [->|H]; [|exact H]. apply existsb_exists in E. destruct E as [z [Hz Ez]].
+    unfold ent_eqb in Ez. apply andb_true_iff in Ez. destruct Ez as [Ez E3]. apply andb_true_iff in Ez. destruct Ez as [E1 E2].
+    apply N.eqb_eq in E1, E2, E3. destruct x as [[a b] c], z as [[a' b'] c']. cbn in *. now subst.
+  - rewrite in_app_iff. cbn. intuition.
+Qed.
+Lemma ent_eqb_eq x y : ent_eqb x y = true <-> x = y.
+Proof.
+  destruct x as [[a b] c], y as [[a' b'] c']. unfold ent_eqb; cbn. rewrite !andb_true_iff, !N.eqb_eq.
+  split; [intros [[-> ->] ->]; reflexivity|intros [= -> -> ->]; auto].
+Qed.
+Lemma eremove_In x y l : In y (eremove x l) <-> In y l /\ y <> x.
+Proof.
+  unfold eremove. rewrite filter_In, negb_true_iff. split; intros [H1 H2]; split; auto.
+  - intros ->. assert (ent_eqb x x = true) by now apply ent_eqb_eq. congruence.
+  - destruct (ent_eqb x y) eqn:E; [|reflexivity]. apply ent_eqb_eq in E. congruence.
+Qed.
+
+Lemma fold_eadd_In (f : N -> ent) cols : forall l y, In y (fold_left (fun l c => eadd (f c) l) cols l) <-> In y l \/ exists c, In c cols /\ y = f c.
+Proof.
+  induction cols as [|c r IH]; intros l y; cbn [fold_left].
+  - split; [auto|intros [H|[c [[] _]]]; exact H].
+  - rewrite IH, eadd_In. split.
+    + intros [[->|H]|[c' [Hc ->]]]; [right; exists c; cbn; auto|auto|right; exists c'; cbn; auto].
+    + intros [H|[c' [[<-|Hc] ->]]]; [auto|auto|right; eauto].
+Qed.
+
+(* ================================================================== 5. rollback, row by row *)
+Definition u_rid (u : undo) : N := match u with UIns r _ => r | UUpd r _ _ _ => r | UDel r _ _ _ => r end.
+
+(* what apply_undo_entry does to the slab slot of its own row *)
+Definition undo_row (cur : option row) (u : undo) : option row :=
+  match cur with
+  | None => None
+  | Some c =>
+      match u with
+      | UIns _ _ => if alive c then Some (R false (va c) (vb c)) else Some c
+      | UUpd _ oa ob _ => if alive c then Some (R true oa ob) else Some c
+      | UDel _ oa ob _ => if alive c then Some c else Some (R true oa ob)
+      end
+  end.
+
+(* observable content of a slot: Some (a, b) for a live row, None for a deleted or never-used slot *)
+Definition live (o : option row) : option (N * N) :=
+  match o with Some r => if alive r then Some (va r, vb r) else None | None => None end.
+Definition slot_eq (x y : option row) : Prop := (x = None <-> y = None) /\ live x = live y.
+
+Lemma slot_eq_refl x : slot_eq x x. Proof. split; tauto. Qed.
+Lemma slot_eq_trans x y z : slot_eq x y -> slot_eq y z -> slot_eq x z.
+Proof. intros [A1 A2] [B1 B2]. split; [tauto|congruence]. Qed.
+
+Lemma undo_row_cong x y u : slot_eq x y -> slot_eq (undo_row x u) (undo_row y u).
+Proof.
+  intros [Hn L]. destruct x as [c|], y as [d|].
+  - cbn [undo_row]. cbn [live] in L.
+    assert (SS : forall a b : row, (Some a = None <-> Some b = None)) by (intros; split; discriminate).
+    destruct (alive c) eqn:Ac, (alive d) eqn:Ad; try discriminate.
+    + destruct u; (split; [apply SS|]); cbn [live alive]; try reflexivity. now rewrite Ac, Ad.
+    + destruct u; (split; [apply SS|]); cbn [live alive]; try reflexivity; now rewrite Ac, Ad.
+  - exfalso. destruct Hn as [_ H]. discriminate (H eq_refl).
+  - exfalso. destruct Hn as [H _]. discriminate (H eq_refl).
+  - cbn. split; tauto.
+Qed.
+
+Lemma nth_row_set_same rs rid r cur : nth_row rs rid = Some cur -> nth_row (set_row rs rid r) rid = Some r.
+Proof.
+  unfold nth_row, set_row. destruct (N.eqb_spec rid 0); [discriminate|]. apply nth_error_set_nth_same.
+Qed.
+
+Lemma apply_undo_slot gb e u rid :
+  nth_row (rows (fst (apply_undo gb e u))) rid =
+  if N.eqb rid (u_rid u) then undo_row (nth_row (rows e) rid) u else nth_row (rows e) rid.
+Proof.
+  destruct (N.eqb_spec rid (u_rid u)) as [E|Hne].
+  - subst rid. destruct u as [r0 ents|r0 oa ob chg|r0 oa ob ents]; cbn [apply_undo u_rid];
+      (destruct (nth_row (rows e) r0) as [cur|] eqn:G; [destruct (alive cur) eqn:A|]);
+      cbn [fst rows with_idx undo_row]; rewrite ?A;
+      first [exact G | eapply nth_row_set_same; exact G].
+  - assert (H : forall r r0, r0 = u_rid u -> nth_row (rows e) r0 <> None -> nth_row (set_row (rows e) r0 r) rid = nth_row (rows e) rid).
+    { intros r r0 -> Hs. apply nth_row_set_other; [congruence|]. intros Z. apply Hs. rewrite Z. reflexivity. }
+    destruct u as [r0 ents|r0 oa ob chg|r0 oa ob ents]; cbn [apply_undo u_rid] in *;
+      (destruct (nth_row (rows e) r0) as [cur|] eqn:G; [destruct (alive cur) eqn:A|]);
+      cbn [fst rows with_idx]; first [reflexivity | apply H; [reflexivity|congruence]].
+Qed.
+
+Definition restore (l : list undo) (rid : N) (cur : option row) : option row :=
+  fold_left undo_row (filter (fun u => N.eqb rid (u_rid u)) (List.rev l)) cur.
+
+Lemma undo_fold_slot gb us rid : forall e b,
+  nth_row (rows (fst (fold_left (fun ae u => let '(e', er) := apply_undo gb (fst ae) u in (e', snd ae || er)) us (e, b)))) rid =
+  fold_left undo_row (filter (fun u => N.eqb rid (u_rid u)) us) (nth_row (rows e) rid).
+Proof.
+  induction us as [|u r IH]; intros e b; cbn [fold_left filter fst]; [reflexivity|].
+  pose proof (apply_undo_slot gb e u rid) as A. destruct (apply_undo gb e u) as [e1 er]. cbn [fst snd] in *.
+  rewrite IH, A. destruct (N.eqb rid (u_rid u)); reflexivity.
+Qed.
+
+(* rollback rewrites the slot of row rid by undoing, newest first, exactly the log entries recorded for rid *)
+Theorem rollback_slot gb e tx l rid :
+  nth_row (rows (fst (do_rollback gb e tx l))) rid = restore l rid (nth_row (rows e) rid).
+Proof.
+  unfold do_rollback, restore. pose proof (undo_fold_slot gb (List.rev l) rid e false) as F.
+  destruct (fold_left _ (List.rev l) (e, false)) as [e1 err]. cbn [fst] in *. exact F.
+Qed.
+
+Lemma restore_app l1 l2 rid cur : restore (l1 ++ l2) rid cur = restore l1 rid (restore l2 rid cur).
+Proof. unfold restore. rewrite rev_app_distr, filter_app, fold_left_app. reflexivity. Qed.
+
+Lemma restore_cong l rid x y : slot_eq x y -> slot_eq (restore l rid x) (restore l rid y).
+Proof.
+  unfold restore. generalize (filter (fun u => N.eqb rid (u_rid u)) (List.rev l)) as us. intros us. revert x y.
+  induction us as [|u r IH]; intros x y H; cbn; [exact H|]. apply IH. now apply undo_row_cong.
+Qed.
+
+Lemma filter_none {A} (p : A -> bool) l : (forall x, In x l -> p x = false) -> filter p l = [].
+Proof. induction l as [|a r IH]; cbn; intros H; [reflexivity|]. rewrite (H a (or_introl eq_refl)). apply IH. intros; apply H; now right. Qed.
+
+Lemma restore_none l rid cur : (forall u, In u l -> u_rid u <> rid) -> restore l rid cur = cur.
+Proof.
+  intros H. unfold restore. rewrite filter_none; [reflexivity|].
+  intros u Hu. apply in_rev in Hu. specialize (H u Hu). destruct (N.eqb_spec rid (u_rid u)); [congruence|reflexivity].
+Qed.
+
+(* ---------------------------------------------------------------- one statement and its own undo entries *)
+Definition mk_upd (e : eng) (col v : N) (ir : N * row) : undo :=
+  UUpd (fst ir) (va (snd ir)) (vb (snd ir)) (map (fun c => (c, getcol (snd ir) col, v)) (filter (N.eqb col) (hmeta e ++ bmeta e))).
+Definition mk_del (e : eng) (ir : N * row) : undo :=
+  UDel (fst ir) (va (snd ir)) (vb (snd ir)) (map (fun c => (c, getcol (snd ir) c)) (hmeta e ++ bmeta e)).
+
+Definition Current (e : eng) (ir : N * row) : Prop := nth_row (rows e) (fst ir) = Some (snd ir) /\ alive (snd ir) = true.
+
+Lemma scan_NoDup rs : NoDup (map fst (scan rs)).
+Proof. apply lt_sorted_NoDup. unfold scan. apply scan_from_sorted. Qed.
+Lemma matching_NoDup e c : NoDup (map fst (matching e c)).
+Proof. apply lt_sorted_NoDup, matching_sorted. Qed.
+Lemma matching_Current e c ir : In ir (matching e c) -> Current e ir.
+Proof. unfold matching. intros H. apply filter_In in H. destruct H as [H _]. destruct ir. now apply scan_spec in H. Qed.
+
+(* the fold of upd_one: log grows by one UUpd per row, each row gets its new value, nothing else moves *)
+Lemma fold_upd tx col v ms : forall e l,
+  NoDup (map fst ms) -> (forall ir, In ir ms -> Current e ir) -> aget (txs e) tx = Some l ->
+  let e' := fold_left (upd_one tx col v) ms e in
+  aget (txs e') tx = Some (l ++ map (mk_upd e col v) ms) /\
+  (forall rid r, In (rid, r) ms -> nth_row (rows e') rid = Some (setcol r col v)) /\
+  (forall rid, ~ In rid (map fst ms) -> nth_row (rows e') rid = nth_row (rows e) rid).
+Proof.
+  induction ms as [|[rid0 r0] t IH]; intros e l ND Hc Hl; cbn [fold_left map].
+  - rewrite app_nil_r. repeat split; auto. intros rid r [].
+  - cbn in ND. inversion ND as [|? ? Hn ND']; subst.
+    destruct (Hc (rid0, r0) (or_introl eq_refl)) as [G0 A0]. cbn [fst snd] in G0, A0.
+    set (e1 := upd_one tx col v e (rid0, r0)).
+    assert (R1 : rows e1 = set_row (rows e) rid0 (setcol r0 col v)) by (unfold e1, upd_one; cbn [rows]; now rewrite G0, A0).
+    assert (M1 : hmeta e1 = hmeta e /\ bmeta e1 = bmeta e) by (unfold e1, upd_one; cbn; auto).
+    assert (T1 : aget (txs e1) tx = Some (l ++ [mk_upd e col v (rid0, r0)])).
+    { unfold e1, upd_one. cbn [txs]. rewrite push_undo_get, Hl, N.eqb_refl. reflexivity. }
+    assert (rid0 <> 0) by (intros ->; unfold nth_row in G0; cbn in G0; discriminate).
+    assert (C1 : forall ir, In ir t -> Current e1 ir).
+    { intros [rid r] Hin. destruct (Hc (rid, r) (or_intror Hin)) as [G A]. split; [|exact A]. cbn [fst snd] in *.
+      rewrite R1, nth_row_set_other; [exact G| |assumption]. intros ->. apply Hn. change rid with (fst (rid, r)). now apply in_map. }
+    destruct (IH e1 _ ND' C1 T1) as [Ht [Hr Ho]]. fold e1. split; [|split].
+    + rewrite Ht. rewrite <- app_assoc. cbn [app].
+      replace (map (mk_upd e1 col v) t) with (map (mk_upd e col v) t); [reflexivity|].
+      apply map_ext. intros ir. unfold mk_upd. destruct M1 as [-> ->]. reflexivity.
+    + intros rid r [[= <- <-]|Hin]; [|now apply Hr].
+      rewrite Ho by exact Hn. rewrite R1. eapply nth_row_set_same; eauto.
+    + intros rid Hnin. cbn in Hnin. rewrite Ho by tauto. rewrite R1. apply nth_row_set_other; [tauto|assumption].
+Qed.
+
+Lemma fold_del tx ms : forall e l,
+  NoDup (map fst ms) -> (forall ir, In ir ms -> Current e ir) -> aget (txs e) tx = Some l ->
+  let e' := fold_left (del_one tx) ms e in
+  aget (txs e') tx = Some (l ++ map (mk_del e) ms) /\
+  (forall rid r, In (rid, r) ms -> nth_row (rows e') rid = Some (R false (va r) (vb r))) /\
+  (forall rid, ~ In rid (map fst ms) -> nth_row (rows e') rid = nth_row (rows e) rid).
+Proof.
+  induction ms as [|[rid0 r0] t IH]; intros e l ND Hc Hl; cbn [fold_left map].
+  - rewrite app_nil_r. repeat split; auto. intros rid r [].
+  - cbn in ND. inversion ND as [|? ? Hn ND']; subst.
+    destruct (Hc (rid0, r0) (or_introl eq_refl)) as [G0 A0]. cbn [fst snd] in G0, A0.
+    set (e1 := del_one tx e (rid0, r0)).
+    assert (R1 : rows e1 = set_row (rows e) rid0 (R false (va r0) (vb r0))) by (unfold e1, del_one; cbn [rows]; now rewrite G0).
+    assert (M1 : hmeta e1 = hmeta e /\ bmeta e1 = bmeta e) by (unfold e1, del_one; cbn; auto).
+    assert (T1 : aget (txs e1) tx = Some (l ++ [mk_del e (rid0, r0)])).
+    { unfold e1, del_one. cbn [txs]. rewrite push_undo_get, Hl, N.eqb_refl. reflexivity. }
+    assert (rid0 <> 0) by (intros ->; unfold nth_row in G0; cbn in G0; discriminate).
+    assert (C1 : forall ir, In ir t -> Current e1 ir).
+    { intros [rid r] Hin. destruct (Hc (rid, r) (or_intror Hin)) as [G A]. split; [|exact A]. cbn [fst snd] in *.
+      rewrite R1, nth_row_set_other; [exact G| |assumption]. intros ->. apply Hn. change rid with (fst (rid, r)). now apply in_map. }
+    destruct (IH e1 _ ND' C1 T1) as [Ht [Hr Ho]]. fold e1. split; [|split].
+    + rewrite Ht. rewrite <- app_assoc. cbn [app].
+      replace (map (mk_del e1) t) with (map (mk_del e) t); [reflexivity|].
+      apply map_ext. intros ir. unfold mk_del. destruct M1 as [-> ->]. reflexivity.
+    + intros rid r [[= <- <-]|Hin]; [|now apply Hr].
+      rewrite Ho by exact Hn. rewrite R1. eapply nth_row_set_same; eauto.
+    + intros rid Hnin. cbn in Hnin. rewrite Ho by tauto. rewrite R1. apply nth_row_set_other; [tauto|assumption].
+Qed.
+
+Lemma restore_one u rid cur : restore [u] rid cur = if N.eqb rid (u_rid u) then undo_row cur u else cur.
+Proof. unfold restore. cbn. destruct (N.eqb rid (u_rid u)); reflexivity. Qed.
+
+Lemma restore_map (g : N * row -> undo) ms rid cur :
+  NoDup (map fst ms) -> (forall ir, u_rid (g ir) = fst ir) ->
+  (forall r, In (rid, r) ms -> restore (map g ms) rid cur = undo_row cur (g (rid, r))) /\
+  (~ In rid (map fst ms) -> restore (map g ms) rid cur = cur).
+Proof.
+  intros ND Hg. split.
+  - intros r Hin. apply in_split in Hin. destruct Hin as [a [b ->]].
+    rewrite map_app in ND. cbn in ND. apply NoDup_remove_2 in ND. rewrite in_app_iff in ND.
+    rewrite map_app. cbn [map]. change (g (rid, r) :: map g b) with ([g (rid, r)] ++ map g b).
+    rewrite !restore_app. rewrite (restore_none (map g b)), restore_one, Hg, N.eqb_refl.
+    + apply restore_none. intros u Hu. apply in_map_iff in Hu. destruct Hu as [ir [<- Hir]]. rewrite Hg.
+      intros E. apply ND. left. rewrite <- E. now apply in_map.
+    + intros u Hu. apply in_map_iff in Hu. destruct Hu as [ir [<- Hir]]. rewrite Hg.
+      intros E. apply ND. right. rewrite <- E. now apply in_map.
+  - intros Hn. apply restore_none. intros u Hu. apply in_map_iff in Hu. destruct Hu as [ir [<- Hir]]. rewrite Hg.
+    intros E. apply Hn. rewrite <- E. now apply in_map.
+Qed.
+
+Lemma nth_row_app_other rs r rid : rid <> N.of_nat (length rs) + 1 -> nth_row (rs ++ [r]) rid = nth_row rs rid.
+Proof.
+  intros Hne. unfold nth_row. destruct (N.eqb_spec rid 0); [reflexivity|].
+  destruct (Nat.lt_ge_cases (N.to_nat (rid - 1)) (length rs)) as [Hlt|Hge].
+  - now apply nth_error_app1.
+  - rewrite nth_error_app2 by exact Hge. rewrite (proj2 (nth_error_None rs _) Hge).
+    destruct (N.to_nat (rid - 1) - length rs)%nat eqn:E; [lia|]. cbn. destruct n0; reflexivity.
+Qed.
+
+Lemma setcol_alive r col v : alive (setcol r col v) = alive r.
+Proof. unfold setcol. destruct (N.eqb col 0); reflexivity. Qed.
+
+Section WithFlag4.
+Variables lock_new gb : bool.
+
+(* one statement of tx: its log grows by the entries d recorded for the rows it changed, and undoing d alone
+   puts every slot back to the live content it had before the statement *)
+Theorem stmt_log_slot e tx o l : aget (txs e) tx = Some l ->
+  let e' := fst (stmt lock_new e tx o) in
+  exists d, aget (txs e') tx = Some (l ++ d) /\
+            (forall u, In u d -> nth_row (rows e') (u_rid u) <> None) /\
+            (forall rid, live (restore d rid (nth_row (rows e') rid)) = live (nth_row (rows e) rid)).
+Proof.
+  intros Hl. destruct o; cbn [stmt];
+    try (exists []; rewrite app_nil_r; split; [exact Hl|split; [intros u []|reflexivity]]).
+  - (* insert *)
+    unfold do_insert. cbn [fst]. set (rid := N.of_nat (length (rows e)) + 1). set (r := R true a b).
+    exists [UIns rid (map (fun col => (col, getcol r col)) (hmeta e ++ bmeta e))]. cbn [txs rows]. split; [|split].
+    + rewrite push_undo_get, Hl, N.eqb_refl. reflexivity.
+    + intros u [<-|[]]. cbn [u_rid]. unfold nth_row, rid. destruct (N.eqb_spec (N.of_nat (length (rows e)) + 1) 0); [lia|].
+      rewrite nth_error_app2 by lia. replace (N.to_nat (N.of_nat (length (rows e)) + 1 - 1) - length (rows e))%nat with 0%nat by lia. discriminate.
+    + intros rid'. rewrite restore_one. cbn [u_rid]. destruct (N.eqb_spec rid' rid) as [->|Hne].
+      * assert (G : nth_row (rows e ++ [r]) rid = Some r).
+        { unfold nth_row, rid. destruct (N.eqb_spec (N.of_nat (length (rows e)) + 1) 0); [lia|].
+          rewrite nth_error_app2 by lia. replace (N.to_nat (N.of_nat (length (rows e)) + 1 - 1) - length (rows e))%nat with 0%nat by lia. reflexivity. }
+        rewrite G. cbn. assert (G0 : nth_row (rows e) rid = None).
+        { unfold nth_row, rid. destruct (N.eqb_spec (N.of_nat (length (rows e)) + 1) 0); [reflexivity|]. apply nth_error_None. lia. }
+        now rewrite G0.
+      * now rewrite nth_row_app_other.
+  - (* update *)
+    destruct (do_write_cases e tx c (upd_one tx col v)) as [[o [k [E _]]]|[lt0 [E _]]]; rewrite E; cbn [fst].
+    + exists []. rewrite app_nil_r. split; [exact Hl|split; [intros u []|reflexivity]].
+    + set (e0 := with_txs e (txs e) lt0).
+      assert (Hc : forall ir, In ir (matching e c) -> Current e0 ir) by (intros ir H; exact (matching_Current e c ir H)).
+      destruct (fold_upd tx col v (matching e c) e0 l (matching_NoDup e c) Hc Hl) as [Ht [Hr Ho]].
+      exists (map (mk_upd e0 col v) (matching e c)). split; [exact Ht|]. split.
+      * intros u Hu. apply in_map_iff in Hu. destruct Hu as [[rid r] [<- Hin]]. cbn [mk_upd u_rid fst]. rewrite (Hr rid r Hin). discriminate.
+      * intros rid. destruct (restore_map (mk_upd e0 col v) (matching e c) rid (nth_row (rows (fold_left (upd_one tx col v) (matching e c) e0)) rid)
+                               (matching_NoDup e c) (fun ir => eq_refl)) as [R1 R2].
+        destruct (in_dec N.eq_dec rid (map fst (matching e c))) as [Hin|Hnin].
+        -- apply in_map_iff in Hin. destruct Hin as [[rid' r] [E' Hin]]. cbn in E'. subst rid'.
+           rewrite (R1 r Hin), (Hr rid r Hin). destruct (matching_Current e c _ Hin) as [G A]. cbn [fst snd] in G, A.
+           cbn [mk_upd undo_row fst snd]. rewrite setcol_alive, A, G. cbn. now rewrite A.
+        -- rewrite (R2 Hnin), (Ho rid Hnin). reflexivity.
+  - (* delete *)
+    destruct (do_write_cases e tx c (del_one tx)) as [[o [k [E _]]]|[lt0 [E _]]]; rewrite E; cbn [fst].
+    + exists []. rewrite app_nil_r. split; [exact Hl|split; [intros u []|reflexivity]].
+    + set (e0 := with_txs e (txs e) lt0).
+      assert (Hc : forall ir, In ir (matching e c) -> Current e0 ir) by (intros ir H; exact (matching_Current e c ir H)).
+      destruct (fold_del tx (matching e c) e0 l (matching_NoDup e c) Hc Hl) as [Ht [Hr Ho]].
+      exists (map (mk_del e0) (matching e c)). split; [exact Ht|]. split.
+      * intros u Hu. apply in_map_iff in Hu. destruct Hu as [[rid r] [<- Hin]]. cbn [mk_del u_rid fst]. rewrite (Hr rid r Hin). discriminate.
+      * intros rid. destruct (restore_map (mk_del e0) (matching e c) rid (nth_row (rows (fold_left (del_one tx) (matching e c) e0)) rid)
+                               (matching_NoDup e c) (fun ir => eq_refl)) as [R1 R2].
+        destruct (in_dec N.eq_dec rid (map fst (matching e c))) as [Hin|Hnin].
+        -- apply in_map_iff in Hin. destruct Hin as [[rid' r] [E' Hin]]. cbn in E'. subst rid'.
+           rewrite (R1 r Hin), (Hr rid r Hin). destruct (matching_Current e c _ Hin) as [G A]. cbn [fst snd] in G, A.
+           cbn [mk_del undo_row fst snd alive]. rewrite G. cbn. now rewrite A.
+        -- rewrite (R2 Hnin), (Ho rid Hnin). reflexivity.
+Qed.
+End WithFlag4.
+
+(* ---------------------------------------------------------------- histories and the rollback theorem *)
+Lemma undo_row_some x u : x <> None -> undo_row x u <> None.
+Proof. destruct x as [c|]; [|congruence]. intros _. destruct u; cbn; destruct (alive c); discriminate. Qed.
+Lemma restore_some l rid x : x <> None -> restore l rid x <> None.
+Proof.
+  unfold restore. generalize (filter (fun u => N.eqb rid (u_rid u)) (List.rev l)) as us. intros us. revert x.
+  induction us as [|u r IH]; intros x H; cbn; [exact H|]. apply IH. now apply undo_row_some.
+Qed.
+
+Section WithFlag5.
+Variables lock_new gb : bool.
+
+(* A history of transaction tx as seen from row rid: tx's own statements, interleaved with ANY other state changes
+   that leave tx's undo log alone, do not shrink the slab, and do not change the live content of row rid
+   (for another writer this is what the row lock guarantees until it expires: stmt_exclusion). *)
+Inductive Hist (tx rid : N) : eng -> eng -> Prop :=
+| HNil e : Hist tx rid e e
+| HOwn e o e2 : Hist tx rid (fst (stmt lock_new e tx o)) e2 -> Hist tx rid e e2
+| HOther e e1 e2 :
+    aget (txs e1) tx = aget (txs e) tx ->
+    live (nth_row (rows e1) rid) = live (nth_row (rows e) rid) ->
+    (nth_row (rows e) rid <> None -> nth_row (rows e1) rid <> None) ->
+    Hist tx rid e1 e2 -> Hist tx rid e e2.
+
+Lemma stmt_keeps_slot e tx o rid : nth_row (rows e) rid <> None -> nth_row (rows (fst (stmt lock_new e tx o))) rid <> None.
+Proof.
+  intros H. assert (Hl : (length (rows e) <= length (rows (fst (stmt lock_new e tx o))))%nat).
+  { destruct o; cbn [stmt]; try apply Nat.le_refl.
+    - unfold do_insert. cbn. rewrite app_length. cbn. lia.
+    - destruct (do_write_cases e tx c (upd_one tx col v)) as [[o [k [E _]]]|[lt0 [E _]]]; rewrite E; cbn [fst]; [apply Nat.le_refl|].
+      rewrite (fold_len (upd_one tx col v) (matching e c) (upd_one_len tx col v)). apply Nat.le_refl.
+    - destruct (do_write_cases e tx c (del_one tx)) as [[o [k [E _]]]|[lt0 [E _]]]; rewrite E; cbn [fst]; [apply Nat.le_refl|].
+      rewrite (fold_len (del_one tx) (matching e c) (del_one_len tx)). apply Nat.le_refl. }
+  unfold nth_row in *. destruct (N.eqb_spec rid 0); [exact H|]. intros Hn. apply H.
+  apply nth_error_None in Hn. apply nth_error_None. lia.
+Qed.
+
+Theorem hist_restore tx rid e0 e : Hist tx rid e0 e -> forall l0, aget (txs e0) tx = Some l0 ->
+  exists d, aget (txs e) tx = Some (l0 ++ d) /\
+            (nth_row (rows e0) rid <> None -> nth_row (rows e) rid <> None) /\
+            live (restore d rid (nth_row (rows e) rid)) = live (nth_row (rows e0) rid).
+Proof.
+  induction 1 as [e|e o e2 H IH|e e1 e2 Ht Hlv Hs H IH]; intros l0 Hl.
+  - exists []. rewrite app_nil_r. repeat split; auto.
+  - destruct (stmt_log_slot lock_new e tx o l0 Hl) as [d1 [Ht1 [Hex Hr1]]].
+    destruct (IH _ Ht1) as [d2 [Ht2 [Hs2 Hr2]]].
+    exists (d1 ++ d2). split; [now rewrite app_assoc|]. split.
+    + intros Hn. apply Hs2. now apply stmt_keeps_slot.
+    + rewrite restore_app. rewrite <- (Hr1 rid).
+      destruct (existsb (fun u => N.eqb rid (u_rid u)) d1) eqn:Ex.
+      * apply existsb_exists in Ex. destruct Ex as [u [Hu Eu]]. apply N.eqb_eq in Eu.
+        assert (S1 : nth_row (rows (fst (stmt lock_new e tx o))) rid <> None) by (rewrite Eu; now apply Hex).
+        apply restore_cong. split; [|exact Hr2].
+        split; intros Hn; exfalso; [revert Hn; apply restore_some; now apply Hs2|contradiction].
+      * assert (Hno : forall u, In u d1 -> u_rid u <> rid).
+        { intros u Hu E. assert (existsb (fun u => N.eqb rid (u_rid u)) d1 = true); [|congruence].
+          apply existsb_exists. exists u. split; [exact Hu|]. apply N.eqb_eq. auto. }
+        rewrite !(restore_none d1) by exact Hno. exact Hr2.
+  - rewrite <- Ht in Hl. destruct (IH _ Hl) as [d [Ht2 [Hs2 Hr2]]].
+    exists d. split; [exact Ht2|]. split; [auto|]. now rewrite Hr2.
+Qed.
+
+(* ROLLBACK, row by row: take tx right after begin_transaction (empty log).  Whatever it then does, and whatever
+   happens in between that leaves row rid alone, rolling tx back puts row rid back to the live content it had when
+   tx began: present with the same values, or absent. *)
+Theorem rollback_restores_row tx rid e0 e : Hist tx rid e0 e -> aget (txs e0) tx = Some [] ->
+  exists l, aget (txs e) tx = Some l /\
+            live (nth_row (rows (fst (do_rollback gb e tx l))) rid) = live (nth_row (rows e0) rid).
+Proof.
+  intros H Hl. destruct (hist_restore tx rid e0 e H [] Hl) as [d [Ht [_ Hr]]]. cbn [app] in Ht.
+  exists d. split; [exact Ht|]. now rewrite rollback_slot.
+Qed.
+End WithFlag5.
